@@ -189,7 +189,7 @@ def run(ctx):
     ctx.proof_leg(TARGETS, PINS, k_targets=U.K_TARGETS)
     vh = ctx.need_harness()
     rng = ctx.rng
-    n = 1500 if ctx.tier == "thorough" else 300
+    n = 4500 if ctx.tier == "thorough" else 300
     roots, docs = [], []
     for i in range(n):
         g = U.Gen(rng, p_bad=0.12 if i % 3 == 1 else 0.0, clean=(i % 3 == 0))
@@ -233,7 +233,7 @@ def run(ctx):
     ctx.coverage["accepted_documents"] = accepted
     s_nested_groups(ctx, vh, rng)
     # ---- planted faults: diagnosed inside the planted text
-    nf = 600 if ctx.tier == "thorough" else 150
+    nf = 1800 if ctx.tier == "thorough" else 150
     froots, fdocs, fkinds = [], [], []
     for i in range(nf):
         g = U.Gen(rng, p_bad=0.0, clean=True)
